@@ -18,11 +18,24 @@
     ParseAllURIParams / ParseAllURIHdrs calls (any buffers, offsets, flags; complete, suspended, failed) and Reset
     calls, then Reset: the object is literally the new object of that capacity, and every later parse call returns
     what it returns on a new object.
+  After the sceptical review (`Sipsp.Proofs.AuditFixB`): `reset_msg` / `reset_hdrvals` / `reset_contacts` above carry the
+  invariant `TailClean` as a hypothesis; `msg_reset_after_any_history`, `msg_reset_like_new(_schedule)`,
+  `hdrvals_reset_after_any_history`, `hdrvals_reset_like_new`, `contacts_reset_after_any_history`,
+  `contacts_reset_like_new` have NO side condition: for every object reachable by any history of Init (zeroed arrays) /
+  parse calls (complete, suspended, failed) / Reset, Reset gives literally the new object over cleared arrays of the same
+  capacities, and every later call or chain of resumed calls returns what it returns on a new object (`bufLen`, which
+  the parser never reads, aside). `msg_init_any`, `msg_init_like_new`, `contacts_init_new_iff_cleared`: Init builds the
+  zero object over the GIVEN arrays — it does not clear them (neither does the Go code), so "like new" holds iff the
+  caller's array is cleared (a test pins a stale slot leaking into MaxExpires). `reset_simple`'s first conjunct is a
+  tautology (noted by the review): the Go Reset of PFLine, PFromBody, PCSeqBody, PCallIDBody, PUIntBody, PTokParam, Hdr,
+  URIParam, PsipURI is `*x = T{}`; the model has no function for it and the session driver substitutes `{}`
+  (`driver_reset_simple`, definitional and labelled so); `pais_reset_is_new`.
 -/
 import Sipsp.Model.Msg
 import Sipsp.Model.Params
 import Sipsp.Model.URI
 import Sipsp.Proofs.ResetLists
+import Sipsp.Proofs.AuditFixB
 
 namespace Sipsp.C12
 open Sipsp
@@ -218,5 +231,49 @@ theorem urihdrs_behave_like_new (cap : Nat) (hist : List (Option (Buf × Nat × 
     parseAllURIHdrs b offs (hist.foldl uriHdrsUse { hdrs := Array.replicate cap {} }).reset flags =
       parseAllURIHdrs b offs { hdrs := Array.replicate cap {} } flags :=
   uriHdrs_behaves_like_new cap hist b offs flags
+
+/-! ### the message object after ANY history, no side condition; what Init guarantees (proved in `Sipsp.Proofs.AuditFixB`) -/
+
+/-- **C12 for PSIPMsg.Reset, no side condition**: for every object reachable by any history of Init (cleared arrays or
+    nil) / ParseSIPMsg (any buffer, offset, flags, verdict) / Reset calls, Reset gives literally the new object with
+    the same array capacities -/
+theorem msg_reset_after_any_history : type_of% @Sipsp.afb_msg_reset_reach := @Sipsp.afb_msg_reset_reach
+
+/-- … hence for EVERY later buffer / offset / flags the call on the Reset object returns what it returns on the new
+    object: "behaves like new" -/
+theorem msg_reset_like_new : type_of% @Sipsp.afb_msg_reset_like_new := @Sipsp.afb_msg_reset_like_new
+
+/-- … and so does every chain of resumed calls (every chunk schedule) -/
+theorem msg_reset_like_new_schedule : type_of% @Sipsp.afb_msg_reset_like_new_schedule := @Sipsp.afb_msg_reset_like_new_schedule
+
+/-- **PSIPMsg.Init, EVERY object `m` (reachable or not), every argument**: the result does not depend on `m` at all; it
+    is the zero object over the GIVEN arrays (`none` = nil: the private 10-element arrays, which the Reset inside Init
+    has just zeroed).  Init does not clear the caller's arrays: the result is the new object iff they are cleared. -/
+theorem msg_init_any : type_of% @Sipsp.afb_msg_init_any := @Sipsp.afb_msg_init_any
+
+/-- **Init of any used object with cleared arrays behaves like new**: every later call — any buffer, offset, flags —
+    returns what it returns on the new object -/
+theorem msg_init_like_new : type_of% @Sipsp.afb_msg_init_like_new := @Sipsp.afb_msg_init_like_new
+
+/-- **C12 for PHdrVals.Reset, no side condition** -/
+theorem hdrvals_reset_after_any_history : type_of% @Sipsp.afb_hv_reset_reach := @Sipsp.afb_hv_reset_reach
+
+/-- … behaves like new in every later ParseHdrLine / ParseHeaders call -/
+theorem hdrvals_reset_like_new : type_of% @Sipsp.afb_hv_reset_like_new := @Sipsp.afb_hv_reset_like_new
+
+/-- **C12 for PContacts.Reset, no side condition**, and "behaves like new" -/
+theorem contacts_reset_after_any_history : type_of% @Sipsp.afb_ct_reset_reach := @Sipsp.afb_ct_reset_reach
+
+theorem contacts_reset_like_new : type_of% @Sipsp.afb_ct_reset_like_new := @Sipsp.afb_ct_reset_like_new
+
+/-- … which is the new object exactly when the given array is cleared -/
+theorem contacts_init_new_iff_cleared : type_of% @Sipsp.afb_contacts_init_new_iff := @Sipsp.afb_contacts_init_new_iff
+
+/-- the one model function of this kind: `PPAIs.reset` returns the zero object for EVERY argument -/
+theorem pais_reset_is_new : type_of% @Sipsp.afb_pais_reset := @Sipsp.afb_pais_reset
+
+/-- the driver's Reset of a stand-alone object of these types is the substitution of the zero object, whatever the
+    object was (definitional) -/
+theorem driver_reset_simple : type_of% @Sipsp.afb_driver_reset_simple := @Sipsp.afb_driver_reset_simple
 
 end Sipsp.C12
